@@ -42,6 +42,7 @@ def configs(tier, rng):
   cfgs += [dict(fam="qbits", bits=4, integer=0, alpha="auto", scale_axis=0, eps=None, emin=None, emax=None, pts=None),
            dict(fam="qbits", bits=4, integer=1, alpha="auto_po2", scale_axis=0, eps=None, emin=None, emax=None, pts=None),
            dict(fam="qbits", bits=4, integer=0, alpha="auto_po2", scale_axis=1, eps=2, emin=None, emax=None, pts=None),
+           dict(fam="qbits", bits=6, integer=1, alpha="auto_po2", scale_axis=0, eps=2, emin=None, emax=None, pts=None),
            dict(fam="qbits", bits=6, integer=0, alpha="auto_po2", scale_axis=None, eps=None, emin=-3, emax=-1, pts=None),
            dict(fam="qbits", bits=4, integer=0, alpha="auto_po2", scale_axis=None, eps=None, emin=0, emax=None, pts=None),
            dict(fam="qbits", bits=4, integer=0, alpha="auto_po2", scale_axis=None, eps=None, emin=None, emax=0, pts=None),
@@ -118,6 +119,27 @@ def main():
         want = tuple(x.shape[i] if i == ax else 1 for i in range(x.ndim))
         if tuple(sc_raw.shape) != want:
           rep.violation(f"scale-shape-{desc(c)}-{x.shape}", f"{desc(c)}: exposed scale has shape {sc_raw.shape}, expected one value per channel {want}", {"config": c})
+      if c.get("eps") and c["fam"] == "qbits":
+        # configured groups: blocks of `elements_per_scale` consecutive entries along scale_axis share ONE scale, and a block is
+        # quantized inside the tensor exactly as it is alone (its scale depends on its own entries only)
+        ax, e = c["scale_axis"], c["eps"]
+        scb = np.broadcast_to(sc_raw, x.shape) if sc_raw.ndim == x.ndim else None
+        if scb is None or tuple(sc_raw.shape) not in (tuple(x.shape[i] if i == ax else 1 for i in range(x.ndim)),
+                                                      tuple(x.shape[i] // e if i == ax else 1 for i in range(x.ndim))):
+          rep.violation(f"group-scale-shape-{desc(c)}-{x.shape}", f"{desc(c)}: exposed scale has shape {sc_raw.shape} for input {x.shape}", {"config": c})
+        else:
+          blocks = np.moveaxis(scb, ax, 0).reshape(x.shape[ax] // e, e, -1)
+          if not np.all(blocks == blocks[:, :1, :]):
+            rep.violation(f"group-scale-not-shared-{desc(c)}-{kind}-{x.shape}", f"{desc(c)} on a {kind} tensor {x.shape}: entries of one block of {e} along axis {ax} "
+                          f"carry different scales {np.moveaxis(scb, ax, 0).reshape(x.shape[ax], -1)[:, 0].tolist()}", {"config": c, "x_bits": env.f2b(x)})
+          for b in range(x.shape[ax] // e):
+            sl = [slice(None)] * x.ndim
+            sl[ax] = slice(b * e, (b + 1) * e)
+            yb_alone = build(c)(tf.constant(x[tuple(sl)])).numpy()
+            if env.f2b(yb_alone) != env.f2b(y[tuple(sl)]):
+              rep.violation(f"group-context-{desc(c)}-{kind}-{x.shape}-{b}", f"{desc(c)} on a {kind} tensor {x.shape}: block {b} along axis {ax} is quantized differently "
+                            "inside the tensor than alone (its scale depends on other groups)", {"config": c, "x_bits": env.f2b(x), "block": b})
+              break
       sc = np.broadcast_to(sc_raw, x.shape)
       # groups = elements sharing one entry of the exposed scale
       sidx = np.broadcast_to(np.arange(sc_raw.size).reshape(sc_raw.shape), x.shape) if sc_raw.size > 1 else np.zeros(x.shape, dtype=int)
